@@ -128,7 +128,13 @@ ssize_t recv(int fd, void *buf, size_t len, int flags)
     }
     size_t n = nondet_size_t();
     __CPROVER_assume(n >= 1 && n <= len && n <= XB_RW_MAX);
+#ifndef XB_RECV_TRACKED_BYTE_ONLY
     __CPROVER_havoc_slice(buf, n);
+#endif
+    /* XB_RECV_TRACKED_BYTE_ONLY (job btcp.receive@huge): the n-1 other bytes keep the ARBITRARY values the caller's buffer
+     * has on entry instead of being overwritten with arbitrary values -- havoc_slice costs solver memory in proportion to the
+     * largest n (out of memory beyond 2^20).  Used only for a function that never reads the buffer (btcp_receive) and a
+     * contract in which no clause relates a buffer byte to its entry value or to another byte. */
     if (xv_k >= xv_rx_off && xv_k - xv_rx_off < (long)n)
         ((uint8_t *)buf)[xv_k - xv_rx_off] = xv_rx_k;
     xv_rx_off += (long)n;
